@@ -116,6 +116,8 @@ def run(repo, tier):
     check_peeks(rep, facts, 'R8.peek')
     check_expr_fields(rep, facts, 'R8.field')
     check_envs(rep, facts, 'R8.env')
+    from .. import labelrules as _LB
+    _LB.check_live_env(rep, facts, 'R8.env.live')
     # the label table the values are read from is the one the invariant speaks about
     LB.check_L5(rep, facts, 'R8.identity')
     # L2/L3 for the passes between label creation and baking (so that "final offset" means byte offset)
